@@ -589,6 +589,27 @@ func genUtilPairs(c *Ctx) []utilPair {
 			add(fn, []byte(s), nil)
 		}
 	}
+	// code points at the boundaries of the encoding and of the planes (U+FFFD, the replacement
+	// character itself, is a VALID code point), a dense block around the Latin-1 boundary and a
+	// stride through the whole range; literally, percent-encoded context and as numeric references
+	var runes []rune
+	for r := rune(0x7F); r <= 0x2FF; r++ {
+		runes = append(runes, r)
+	}
+	runes = append(runes, 0x7FF, 0x800, 0xFFF, 0x1000, 0x2028, 0xD7FF, 0xE000, 0xFDD0, 0xFEFF, 0xFFFC, 0xFFFD, 0xFFFE, 0xFFFF, 0x10000, 0x1FFFE, 0x1FFFF, 0xE0000, 0xFFFFF, 0x100000, 0x10FFFD, 0x10FFFE, 0x10FFFF)
+	for r := rune(0x300); r <= 0x10FFFF; r += 251 {
+		if r < 0xD800 || r > 0xDFFF {
+			runes = append(runes, r)
+		}
+	}
+	for _, r := range runes {
+		for _, fn := range fns {
+			add(fn, []byte("a"+string(r)+"b"), nil)
+			add(fn, []byte("/p%20"+string(r)+string(r)+"?q="+string(r)), nil)
+		}
+		add("URLEscape", []byte(fmt.Sprintf("/x&#%d;y&#x%X;", r, r)), nil)
+		add("ResolveNumericReferences", []byte(fmt.Sprintf("&#%d;&#x%x;", r, r)), nil)
+	}
 	// every rune with a non-trivial simple-fold orbit: label case variants
 	rng := c.Rand("pairs")
 	nFold := 0
